@@ -36,6 +36,13 @@ def _procs(pid, offset, n_quick=4000):
             'params': {'props': [pid]}, 'wall_cap': {'quick': 400.0, 'thorough': 3000.0}}
 
 
+def _cs(pid, offset, n_quick=1500):
+    """raw REST multi-update histories (worlds/batch/cancelscope.py: several updates open at once, bunch-wise
+    submission, out-of-order commits, abandoned updates, parents in earlier updates, cancellations in between)."""
+    return {'module': 'worlds.batch.cancelscope', 'quick': n_quick, 'thorough': 25 * n_quick, 'seed_offset': offset,
+            'params': {'props': [pid]}, 'wall_cap': {'quick': 400.0, 'thorough': 3000.0}}
+
+
 def _fe_entry(pid, module, text, oracle, n_quick, n_thorough, expected=(), scenarios=None):
     return {
         'level': 'exploration',
@@ -89,7 +96,7 @@ CHECKS = {
                          'recount from the jobs table. Sampling of histories, not a proof.',
                   'counter recount after every commit', offset=0,
                   expected=['cancel_committed', 'job_Ready_to_Running', 'job_Running_to_Ready'],
-                  extra_scenarios=[_procs('C01', 2_100_000, n_quick=2000)]),
+                  extra_scenarios=[_procs('C01', 2_100_000, n_quick=2000), _cs('C01', 3_100_000)]),
     'C02': _entry('C02', 'After every commit that touches attempts / resources / aggregates, each billing aggregate '
                          '(job, job group incl. ancestors, billing project x user, by date) is compared with '
                          'sum(quantity x billed duration) recomputed from attempts.',
@@ -105,11 +112,11 @@ CHECKS = {
                   'transition monitor + tally recount', offset=300_000,
                   expected=['job_Running_to_Success', 'dup_message', 'stale_report', 'complete_after_unschedule',
                             'unschedule_after_complete', 'started_after_complete', 'double_placement'],
-                  extra_scenarios=[_procs('C04', 2_400_000)]),
+                  extra_scenarios=[_procs('C04', 2_400_000), _cs('C04', 3_400_000)]),
     'C05': _entry('C05', 'Whenever a job becomes Ready all its parents are terminal at that commit; children of '
                          'failed parents are marked cancelled and never start unless always-run.',
                   'dependency monitor at every commit', offset=400_000,
-                  extra_scenarios=[_procs('C05', 2_700_000, n_quick=2000)]),
+                  extra_scenarios=[_procs('C05', 2_700_000, n_quick=2000), _cs('C05', 3_500_000)]),
     'C06': _entry('C06', 'After every commit batch / job-group state, n_jobs and tallies equal the recount over '
                          'committed jobs of the subtree; what the API reports for a batch / job group (polled by a '
                          'reader throughout the run, and exhaustively at quiescence) agrees with the recount; job '
@@ -141,5 +148,5 @@ CHECKS = {
     'C41': _entry('C41', 'Jobs of uncommitted updates never get attempts, never enter Creating/Running/terminal '
                          'states and never contribute to counters or tallies (recount over committed jobs).',
                   'uncommitted-update monitors + recount', offset=900_000,
-                  extra_scenarios=[_procs('C41', 2_800_000, n_quick=2000)]),
+                  extra_scenarios=[_procs('C41', 2_800_000, n_quick=2000), _cs('C41', 3_900_000)]),
 }
